@@ -56,7 +56,7 @@ def readReason (st : St) (k : Key) (lo hi : Int) (asc : Bool) (rows : List Pt) :
       else s!"value-never-written-or-stale:s{k.series}f{k.field}t{p.1}"
     | none => "acknowledged-write-lost:"
 
-def closeWin (w : Window) : Window := { w with isOpen := false, snapPuts := [] }
+def closeWin (w : Window) : Window := w.crash
 
 /-- `none` = the statement holds on this trace; `some reason` = where it fails. -/
 def checkFrom (st : St) : List (Op × Obs) → Option String
@@ -83,7 +83,7 @@ def checkFrom (st : St) : List (Op × Obs) → Option String
       checkFrom { st with prev := none, win := { st.win with isOpen := true, snapPuts := st.win.hotPuts, hotPuts := [] } } tr
     else checkFrom { st with prev := none } tr
   | (.snapTo p, _) :: tr =>
-    checkFrom { st with prev := none, win := if closesWindow p then closeWin st.win else st.win } tr
+    checkFrom { st with prev := none, win := st.win.snapTo p } tr
   | (.crash tear, o) :: tr =>
     if o = .ok then
       -- a torn tail: the preceding write/delete was in flight
